@@ -63,3 +63,26 @@ VARIANTS = [
     silent("c16-catch-and-convert",
            [(RG, '        if idx < 0 or (size is not None and idx >= int(size)):\n            raise JaqalError("Index out of range.")', '        try:\n            if idx < 0 or (size is not None and idx >= int(size)):\n                raise IndexError("Index out of range.")\n        except IndexError as ex:\n            raise JaqalError("Index out of range.") from ex')], P),
 ]
+
+VARIANTS += [
+    fire("c16-loop-without-progress",
+         [(RG, "        while isinstance(alias_from, AnnotatedValue):\n            alias_from = alias_from.resolve_value(context)\n        if self.alias_slice is None:", "        while isinstance(alias_from, AnnotatedValue):\n            alias_from.resolve_value(context)\n        if self.alias_slice is None:")],
+         ("C16.11", "Register.resolve_size:while"), P),
+    fire("c16-comment-regex-exponential",
+         [(SL, 'ignore_multiline_comment = r"/\\*([^*]|\\*+[^*/])*\\*+/"', 'ignore_multiline_comment = r"/\\*([^*]+|\\*+[^*/])*\\*+/"')],
+         ("C16.9", "ignore_multiline_comment:repetition"), P),
+    fire("c16-class-level-results",
+         [(BE, "        super().__init__(traces)\n        self.results = []\n        self.readout_index = 0\n", "        super().__init__(traces)\n"),
+          (BE, "class IndependentSubcircuitsEmulatorWalker(TraceVisitor):\n", "class IndependentSubcircuitsEmulatorWalker(TraceVisitor):\n    results = []\n    readout_index = 0\n\n")],
+         ("C16.8", "class-state:results"), P),
+    fire("c16-guard-before-strip",
+         [(IM, "    if not mod_name:\n        raise ImportError(\"Module name may not be empty\")\n\n    module = sys.modules.get(mod_name)", "    module = sys.modules.get(mod_name)"),
+          (IM, "    assert reload_module in (True, False, \"relative_only\")\n", "    assert reload_module in (True, False, \"relative_only\")\n\n    if not mod_name:\n        raise ImportError(\"Module name may not be empty\")\n")],
+         ("C16.10", "emptiness-guard:mod_name"), P),
+]
+
+VARIANTS += [
+    fire("c16-or-default-index",
+         [(SL, "        if index is None:\n            index = self._last_index\n", "        index = index or self._last_index\n")],
+         ("C16.7", "compute_col:or-default:index"), P),
+]
